@@ -280,7 +280,7 @@ PROFILES = {
     'timeouts_clean': dict(nb=[1], own_bus_only=True, ncallers=[1], p_caller_await=1.0, short_timeouts=(0.5, [0.05, 0.1, 0.5, 1.0]), long_p=0.3,
                            p_pause=0.5, p_dispatch=0.0, p_dawait=0.0, max_depth=[1]),
     'late_child': dict(nb=[1, 2, 3], p_spawn=0.3, p_dispatch=0.25, p_dawait=0.2, p_pause=0.25, ncallers=[1, 2], p_caller_await=0.6, fwd='some'),
-    'idle_gap': dict(nb=[2, 2, 3], p_gap=0.45, p_pause=0.35, long_p=0.5, p_dispatch=0.1, caller_idle_p=0.7, ncallers=[2, 3], p_caller_await=0.2, max_depth=[1, 2]),
+    'idle_gap': dict(nb=[2, 2, 3], p_gap=0.45, p_pause=0.35, long_p=0.3, prog_len=[1, 2, 2, 3], p_dispatch=0.1, caller_idle_p=0.7, ncallers=[2, 3], p_caller_await=0.2, max_depth=[1, 2]),
     'idle_race': dict(nb=[1, 2], caller_idle_p=0.6, ncallers=[2, 3], p_caller_await=0.3, p_raise=0.05),
     'idle_dead_loop': dict(nb=[1, 2], p_cancel_runloop=0.5, caller_idle_p=0.7, ncallers=[1, 2], caller_len=[2, 3, 4], p_caller_await=0.0, p_raise_cancelled=0.12, p_dawait=0.1, p_dispatch=0.2),
 }
